@@ -40,7 +40,6 @@ WFT(T)     == /\ Len(T.U) = NDims(T.core)
 \* Khatri-Rao product of a sequence of matrices with common column count.
 \* Row index: the LAST matrix's row index varies fastest (C17).
 KRShape(As)  == [k \in 1..Len(As) |-> NRows(As[k])]
-RevSeq(s)    == [k \in 1..Len(s) |-> s[Len(s) + 1 - k]]
 KhatriRao(As) ==
   LET rs  == RevSeq(KRShape(As))          \* fastest index first
       n   == Len(As)
